@@ -222,11 +222,27 @@ fn ebase(p: &Params, classes: u8) -> Program {
 
 /// Survivor: rounds until every deferred function has run (at most `max`), then the last
 /// references to the collector go away.
+/// Parameter `nested` of any EBR scenario (set per execution by `exec::unclaim`): the surviving
+/// thread has held nested guards before it starts its rounds.
+pub static SURVIVOR_NESTS: std::sync::atomic::AtomicBool = std::sync::atomic::AtomicBool::new(false);
+
 fn survivor(ew: &Arc<EWorld>, max: usize, rounds_before_check: bool) -> Body {
     ebody(ew, move |c, ew| {
         drop(ew.parked.try_take());
         if rounds_before_check {
             let h = ew.collector.register();
+            if SURVIVOR_NESTS.load(std::sync::atomic::Ordering::Relaxed) {
+                // the survivor is a thread with a history: it once held two guards at a time
+                // and dropped them innermost first and, another time, outermost first
+                let a = c.pin(&h);
+                let b = c.pin(&h);
+                c.unpin(b);
+                c.unpin(a);
+                let a = c.pin(&h);
+                let b = c.pin(&h);
+                c.unpin(a);
+                c.unpin(b);
+            }
             let mut k = 0;
             while k < max && mon().ebr.deferred.iter().any(|d| d.runs == 0) {
                 c.round(&h);
@@ -312,6 +328,7 @@ fn sections(p: &Params) -> Program {
     let mut nhandles = 3;
     let mut stale_participant = false;
     let mut lagging_participant = false;
+    let mut staged = false;
     let bag_cap = p.get("bag", 64) as usize;
     let threads: Vec<Body> = match prog {
         // 1. reader vs deferrer
@@ -436,6 +453,24 @@ fn sections(p: &Params) -> Program {
                 }),
             ]
         }
+        // 13. (C13) functions that run in successive passes of ONE collection loop (the unpin of
+        //     thread 0) and use thread 0's own participant from inside it: the first forces
+        //     another pass, the second defers a function and flushes - that bag must carry the
+        //     epoch of the moment it is sealed, not the one the outermost guard was pinned in
+        //     (the loop re-pins after every pass), or it expires under a reader that pins
+        //     during the second pass
+        12 => {
+            staged = true;
+            vec![
+                ebody(&ew, move |c, ew| {
+                    let h = &ew.handles[0].get().0;
+                    let g = c.pin(h);
+                    c.flush(&g);
+                    c.unpin(g);
+                }),
+                reader(1, 2),
+            ]
+        }
         // 12. (C14) a guard that has outlived its handle is reactivated while another participant
         //     advances: the participant must stay registered (and hold the epoch back) for as
         //     long as the guard lives
@@ -469,7 +504,37 @@ fn sections(p: &Params) -> Program {
         e0,
         setup: Some(ebody(&ew, move |_, ew| {
             ew.attach(e0);
-            if lagging_participant {
+            if staged {
+                for i in 0..nhandles {
+                    ew.handles[i].put(SendHandle(ew.collector.register()));
+                }
+                // two functions deferred through thread 0's participant in consecutive epochs
+                // (each flush seals the bag, each unpin advances once): sealed at G-2 and G-1
+                let c = ECtx::new();
+                let h = &ew.handles[0].get().0;
+                let hp = h as *const LocalHandle as usize;
+                for stage in 0..2 {
+                    let g = c.pin(h);
+                    let id = mon().closure_deferred(c.t);
+                    unsafe {
+                        cv::ebr::defer(&g.g, move || {
+                            ran(id);
+                            if try_mon().is_none() || sched::tid() == sched::NONE {
+                                return;
+                            }
+                            let h = &*(hp as *const LocalHandle);
+                            let g2 = h.pin();
+                            if stage == 1 {
+                                let id2 = mon().closure_deferred(sched::tid());
+                                cv::ebr::defer(&g2, move || ran(id2));
+                            }
+                            g2.flush();
+                        });
+                    }
+                    c.flush(&g);
+                    c.unpin(g);
+                }
+            } else if lagging_participant {
                 // registry order (newest first): thread 0, thread 1, the exited participant, the
                 // lagging one
                 let lag = ew.collector.register();
